@@ -7,6 +7,24 @@ def repo_commits(prefix):
     return [l.split()[0] for l in out if l.split(" ", 1)[1].startswith(prefix)]
 
 CHECKS = {
+ "C08": ("bounded-exhaustive + generated single-threaded histories of reserve / fill / send-reserved / cancel / send / receive on the 5 kinds implementing the API, counters starting anywhere next to the 32-bit wrap; reference model compared after every step",
+         "Exploration: every history up to a length bound for BUFFER_SIZE 2 (exhaustive: 7^5 quick / 7^7 thorough per kind and origin) plus tens of thousands of random histories up to length 120; a slot answered 'sent' is delivered once with the written value, a cancelled one never, and after completion exactly BUFFER_SIZE events are accepted.",
+         "Sequential histories only in this part (the interleavings with a polling consumer are exercised by the C01 / C04 parts through the reserve+send_reserved entry point). Documented call restrictions are respected by construction.", "6 C08"),
+ "C10": ("generated single-threaded histories of create-listener / send / receive-some / drop-listener (with leftovers) / cancel on the non-log Multi kinds and the Uni kinds; per-listener window model + running-count and id-recycling checks after every step",
+         "Exploration: tens of thousands of histories (up to 300 operations, MAX_STREAMS 1/2/4) against a reference model in which each listener owns exactly the events accepted during its lifetime; stale events of an earlier listener, wrong running counts and exhausted stream ids are model mismatches.",
+         "Sequential histories (listener churn concurrent with sends is C17).", "6 C10"),
+ "C13": ("generated alloc / dealloc scripts x thread schedules on both free-list implementations, POOL_SIZE 2/4/8, free-list counters next to the wrap; ownership ledger with interval rules + id<->ref bijection + destructor ledger",
+         "Exploration: generated (scripts, schedule) pairs under the controlled scheduler; double allocation, payload overwritten while owned, spurious exhaustion (interval rule), over-capacity, destructor counts and refill capacity are decided per history.",
+         "SC interleavings; scheduling points at the free list's atomics and at the payload slot accesses.", "6 C13"),
+ "C14": ("generated handle histories (new / new_with_clones / clone / bulk increment + raw copies / into_ogre_arc / deref / drop / hand-over between threads) x thread schedules; handle model + destructor ledger + pool refill",
+         "Exploration: generated (scripts, schedule) pairs on 2..3 threads over OgreArc / OgreUnique handles to pooled values with destructors; deref always yields the created value, references_count equals live shared handles at quiescence, each value destroyed exactly once after its last handle, slots returned.",
+         "SC interleavings only (the Release/Acquire pair of the last drop is not exercised).", "6 C14"),
+ "C15": ("differential property-based testing: every generated single-threaded script (channels: sequential engine ops; raw rings, queues, pool allocator: put/get/len, alloc/dealloc) replayed from sequence origin k in a window below 2^32 and from origin 0, in a release build and in a build with overflow checks + debug assertions",
+         "Exploration: 60k script pairs per build in the quick tier; the observation streams (accept/reject, values, order, lengths, boolean answers, panics, stalls) must be identical; '>2^32 events have flowed' is simulated by constructing every ring counter at the origin.",
+         "The origin hook sets all counters of a fresh container to k (the state after k events were sent and consumed); states with leftovers at the wrap are reached by the scripts themselves.", "6 C15"),
+ "C19": ("generated measurement sequences x 2..3 recorder threads + a reader x thread schedules on a StreamExecutor's public incremental-average metric; count / mean / per-probe explainability oracle",
+         "Exploration: generated (measurements, schedule) pairs; final count exact, final mean within tolerance, every probe's (count, average) explainable by one prefix per recorder consistent with call/return times.",
+         "Counts far below the documented u32::MAX reset; tolerance 1e-4 relative to the largest magnitude in play.", "6 C19"),
  "C05": ("generated send / receive / handle-clone / into-shared / release histories x thread schedules, incl. teardown with events still buffered, with a destructor-carrying payload; drop-ledger + address + waker-generation oracles; crashes of the library are caught by running the search in a supervised child process",
          "Exploration: generated (workload, schedule) pairs on the Uni movable + zero-copy and Multi arc / ogre_arc kinds with a payload whose destructor reports to a ledger; exactly-once destruction, no destructor on garbage, payload intact while held, pooled storage not re-handed-out while held, no waker used after the channel dropped it, capacity restored; a third of the cases tear the channel down with leftovers.",
          "The payload holds no pointer, so even a destructor running on freed/garbage memory is recorded rather than crashing; real memory corruption kills the supervised child and is reported with the in-flight case as replay. No AddressSanitizer build in this tier.", "6 C05"),
